@@ -75,7 +75,9 @@ def opclass(act, args, n=None):
         return f"Index/{args[1]}" + ("/last" if n is not None and args[0] == n - 1 else "")
     if act == "Stride":
         return "Stride/rev" if args[1] == 0 else "Stride/step"
-    if act in ("TakePositions", "TakeSeqs"):
+    if act == "TakePositions":
+        return act + ("/neg" if args[1] else "") + ("/array" if args[2] == "array" else "")
+    if act == "TakeSeqs":
         return act + ("/neg" if args[1] else "")
     if act == "OmitGapPos":
         return act + ("/ml2" if args[2] == 2 else "")
@@ -293,6 +295,16 @@ def _rng(seed, path):
     return random.Random(zlib.crc32(("|".join(path)).encode()) ^ (seed * 2654435761 & 0xFFFFFFFF))
 
 
+def _is_index_tuple(lab):
+    """a take_positions label of the ordered / repeating tuple family (not a monotone list)"""
+    cols, neg = json.loads(lab)[1][:2]
+    if neg or len(cols) < 3:
+        return False
+    inc = all(x < y for x, y in zip(cols, cols[1:]))
+    dec = all(x > y for x, y in zip(cols, cols[1:]))
+    return not (inc or dec)
+
+
 class Stats:
     def __init__(self):
         self.steps = 0  # real calls compared with the spec
@@ -309,6 +321,7 @@ def walk(g, make_lab, first_labels, policy, seed, stats):
     full_depth, sample_k, p_ro = policy["full_depth"], policy["sample_k"], policy["p_ro"]
     max_depth = policy["max_depth"]  # histories of at most this many operations (and only while the graph has the state expanded)
     cs_cap = policy.get("cs_cap")  # at most this many ConcatSlices labels per node (seeded sample); None = all
+    tp_cap = policy.get("tp_cap")  # below the first level: at most this many index-TUPLE take_positions labels per node
 
     def visit(sid, objs, path):
         # objs: {track: real object}; all stand at spec state sid
@@ -326,6 +339,11 @@ def walk(g, make_lab, first_labels, policy, seed, stats):
             cs = sorted(l for l in labels if l.startswith('["ConcatSlices"'))
             if len(cs) > cs_cap:
                 drop = set(cs) - set(_rng(seed, [make_lab, "cs"] + path).sample(cs, cs_cap))
+                labels = [l for l in labels if l not in drop]
+        if tp_cap is not None and depth >= 1:
+            tp = sorted(l for l in labels if l.startswith('["TakePositions"') and _is_index_tuple(l))
+            if len(tp) > tp_cap:
+                drop = set(tp) - set(_rng(seed, [make_lab, "tp"] + path).sample(tp, tp_cap))
                 labels = [l for l in labels if l not in drop]
         for lab in labels:
             groups = {}
